@@ -1,7 +1,8 @@
 /-
   Model of the in-place (overlay) bowl's commit (pwr/bowl/bowl_overlay.go) over the abstract filesystem:
   ensure dirs+symlinks, transpositions (with the two map-visiting orders as explicit parameters and the
-  `.butler-rename-N` temporary names numbered in visiting order), staged moves, overlays, ghost deletion.
+  `.butler-rename-N` temporary names numbered in visiting order, skipping the numbers whose name is a path of
+  the old or of the new build — the fix of finding F22), staged moves, overlays, ghost deletion.
 
   The patching phase only writes to the stage folder, which is not part of the output tree: it is
   represented by the *contents* staged for each new file (by C14 an applied overlay yields the new content).
@@ -15,6 +16,13 @@ structure Build where
   dirs : List Path := []
   symlinks : List (Path × String) := []
   files : List (Path × List Byte) := []
+
+/-- every path of a build's container: directories, symlinks, files -/
+def pathsOf (b : Build) : List Path := b.dirs ++ b.symlinks.map (·.1) ++ b.files.map (·.1)
+
+/-- `pathInUse` of `applyTranspositions`: the paths (files, symlinks, dirs) of the old (Target) and of the new
+    (Source) container.  Only membership is ever asked of it, so the order and the duplicates do not matter. -/
+def pathsInUse (old new : Build) : List Path := pathsOf old ++ pathsOf new
 
 /-- what the patching phase recorded -/
 structure Work where
@@ -102,9 +110,23 @@ def seedName (p : Path) (seed : Nat) : Path :=
   | some l => p.dropLast ++ [l ++ ".butler-rename-" ++ toString seed]
   | none => p
 
+/-- The skip loop `for pathInUse[safePath] { renameSeed++; safePath = … }` entered with `renameSeed = seed`:
+    the first number `≥ seed` whose temporary name for `p` is not in use.
+
+    The Go loop is unbounded; here it runs on fuel.  Called with fuel `used.length + 1` it is the same
+    function: the names `seedName p seed, …, seedName p (seed + used.length)` are pairwise distinct
+    (`Wharf.Commit.seedName_inj`), so they cannot all be among the `used.length` paths in use (pigeonhole), and
+    the loop stops on a free name before the fuel runs out.  This is proved, not assumed
+    (`Wharf.Commit.nextFree_spec` in Wharf/Proofs/Commit.lean: for `p ≠ []` the result is the LEAST number
+    `≥ seed` whose name is not in `used` — exactly what the unbounded loop computes). -/
+def nextFree (used : List Path) (p : Path) : Nat → Nat → Nat
+  | 0, seed => seed
+  | fuel + 1, seed => if used.contains (seedName p seed) then nextFree used p fuel (seed + 1) else seed
+
 /-- first pass: give clash-prone outputs (an output that is itself some group's source) a temporary name,
-    numbered in visiting order; returns the rewritten groups and the cleanup renames -/
-def safePass (groups : List (Path × List Transpo)) (sources : List Path) :
+    numbered in visiting order, skipping the numbers whose name is in use (`used`: the paths of both builds);
+    returns the rewritten groups and the cleanup renames -/
+def safePass (groups : List (Path × List Transpo)) (sources : List Path) (used : List Path) :
     List (Path × List Transpo) × List Transpo := Id.run do
   let mut seed := 0
   let mut out : Array (Path × List Transpo) := #[]
@@ -115,7 +137,8 @@ def safePass (groups : List (Path × List Transpo)) (sources : List Path) :
       if tr.targetPath == tr.outputPath then
         g' := g'.push tr
       else if sources.contains tr.outputPath then
-        seed := seed + 1
+        -- renameSeed++; then skip the numbers whose name is a path of either build
+        seed := nextFree used tr.outputPath (used.length + 1) (seed + 1)
         let safe := seedName tr.outputPath seed
         cleanup := cleanup.push { targetPath := safe, outputPath := tr.outputPath }
         g' := g'.push { tr with outputPath := safe }
@@ -151,7 +174,7 @@ def applyTranspositions (old new : Build) (w : Work) (order₁ order₂ : List P
     | some (np, _), some (op, _) => some { targetPath := op, outputPath := np }
     | _, _ => none
   let sources := (ts.map (·.targetPath)).eraseDups
-  let (groups₁, cleanup) := safePass (groupsOf ts order₁) sources
+  let (groups₁, cleanup) := safePass (groupsOf ts order₁) sources (pathsInUse old new)
   -- the second loop visits the same (rewritten) groups in its own order
   let groups₂ := order₂.filterMap fun p => groups₁.find? (·.1 == p)
   let overlayPaths := w.overlayFiles.filterMap fun i => (new.files[i]?).map (·.1)
